@@ -83,6 +83,15 @@ func c08(r *Run) {
 		}
 	}
 
+	// commit before send: what Flush/Write submit is committed to the output buffer before flush() looks at it
+	for _, name := range []string{"(*connection).Flush", "(*connection).Write"} {
+		fn := w.MustFn(name)
+		for _, site := range findIns(fn, func(i ssa.Instruction) bool { return isCall(i, flush) }) {
+			r.precedes("C08.R1:commit-before-send:"+fn.Name(), "the pending bytes are committed (outputBuffer.Flush) before flush() sends what is readable: nil then means the submitted bytes were taken", fn, site, isOut("Flush"), nil, "outputBuffer.Flush() dominates flush()")
+		}
+	}
+	expiredRule(r, waitFlush, "ErrWriteTimeout", "C08.R4")
+
 	// ---- R2 nil means drained ---------------------------------------------------------------------
 	emptyTrue := lenZeroFact(true)
 	nRet := 0
